@@ -471,7 +471,32 @@ def sequence_rule(ctx, R):
             (res.calls('try_from') or [res])[0].args[0] if (res.calls('try_from')) else res))
     ctx.check(okr, R, b, 'make_prediction:reports-the-updated-mean', repr(res)[:200],
               'the box reported by make_prediction is not converted from the updated state: %s' % repr(res)[:300])
-    # every tracker calls make_prediction exactly once per observation update
+    # the reported box IS the conversion of the updated state: between the conversion and the return only `confidence`
+    # (which the filter does not carry) is written, from the observation; a geometry component that is re-written
+    # (normalised angle, clamped aspect ..) makes the box kept for the next association - and echoed in the record of a
+    # continued track - differ from the filter's state
+    from lib import backward_locals
+    flows = backward_locals(b, b.defs().get(0, [])) | {0}
+    for i in sorted(b.live_blocks()):
+        for si, s_ in enumerate(b.blocks[i]['st']):
+            if s_['k'] != 'assign' or not s_['lhs']['p'] or s_['lhs']['l'] not in flows:
+                continue
+            if 'bbox::Universal2DBox' not in b.locals[s_['lhs']['l']]:
+                continue
+            fl = [p.get('n') for p in s_['lhs']['p'] if isinstance(p, dict) and p.get('n')]
+            if not fl:
+                continue
+            n += 1
+            v = eb._rvalue(s_['rv'], (), 0, (i, si))
+            if fl[0] == 'confidence':
+                ctx.check(v.has_place(root=('param', 2), field='confidence'), R, b,
+                          'make_prediction:confidence-from-the-observation', repr(v)[:80],
+                          'the reported box gets its confidence from %r, not from the observed box' % v, s_.get('ln', ''))
+            else:
+                ctx.check(False, R, b, 'make_prediction:reported-box-is-the-updated-state', '%s = %r' % (fl[0], v),
+                          'make_prediction overwrites `%s` of the reported box with %r after converting the updated '
+                          'state: the box stored for the next association / echoed in the record is no longer the '
+                          "filter's estimate" % (fl[0], v), s_.get('ln', ''))
     return n
 
 
